@@ -364,6 +364,78 @@ theorem withIndex_pairs_true_index_colMajor {κ : Type} (cell : Nat × Nat → O
       subst h1
       exact ⟨rfl, h2.symm⟩
 
+/-- The counters `WithIndex` reads show, in *every* state, the position the wrapped iterator is
+    about to fetch — for the shape iterator and both matrix odometers. -/
+theorem counters_show_position :
+    (∀ (s s' : ShapeIter) p, shapeNext s = .ok (some p, s') → s.indexes = p) ∧
+      (∀ (s s' : MatIter) p, rowMajorNext s = .ok (some p, s') →
+        (s.rowCounter, s.columnCounter) = p) ∧
+      (∀ (s s' : MatIter) p, colMajorNext s = .ok (some p, s') →
+        (s.rowCounter, s.columnCounter) = p) :=
+  ⟨shapeNext_counter, rowMajorNext_counter, colMajorNext_counter⟩
+
+/-- The *copying* with-index iterators, any state: the returned index is the position whose
+    cell's content was copied. -/
+theorem withIndex_true_index_copy {σ π κ α : Type} (next : σ → Outcome (Option π × σ))
+    (counter : σ → π) (hcounter : ∀ s s' p, next s = .ok (some p, s') → counter s = p)
+    (cell : π → Option κ) (mem : κ → α) (s s' : σ) (i : π) (x : Option α)
+    (h : withIndexNext counter (copyNext next cell mem) s = .ok (some (i, x), s')) :
+    next s = .ok (some i, s') ∧ x = (cell i).map mem := by
+  simp only [withIndexNext, copyNext] at h
+  cases hn : next s with
+  | panic k => simp [hn] at h
+  | ok r =>
+    obtain ⟨p, t⟩ := r
+    cases p with
+    | none => simp [hn] at h
+    | some p =>
+      have hc := hcounter s t p hn
+      simp only [hn, Option.map_some, Outcome.ok.injEq, Prod.mk.injEq, Option.some.injEq] at h
+      obtain ⟨⟨h1, h2⟩, h3⟩ := h
+      subst h3
+      rw [hc] at h1
+      subst h1
+      exact ⟨rfl, h2.symm⟩
+
+/-- The *owning* with-index iterators, any state and any memory: the returned index is the
+    position whose cell's content was moved out, and exactly that cell now holds the
+    placeholder. -/
+theorem withIndex_true_index_owned {σ π κ α : Type} [DecidableEq κ]
+    (next : σ → Outcome (Option π × σ)) (counter : σ → π)
+    (hcounter : ∀ s s' p, next s = .ok (some p, s') → counter s = p)
+    (cell : π → Option κ) (placeholder : α) (s s' : σ) (mem mem' : κ → α) (i : π) (c : κ)
+    (x : Option α) (hcell : cell i = some c)
+    (h : withIndexNext (fun (t : σ × (κ → α)) => counter t.1) (ownedNext next cell placeholder)
+      (s, mem) = .ok (some (i, x), (s', mem'))) :
+    next s = .ok (some i, s') ∧ x = some (mem c) ∧ mem' = update mem c placeholder := by
+  simp only [withIndexNext, ownedNext] at h
+  cases hn : next s with
+  | panic k => simp [hn] at h
+  | ok r =>
+    obtain ⟨p, t⟩ := r
+    cases p with
+    | none => simp [hn] at h
+    | some p =>
+      have hc := hcounter s t p hn
+      simp only [hn] at h
+      cases hcp : cell p with
+      | none =>
+        simp only [hcp, Option.map_some, Outcome.ok.injEq, Prod.mk.injEq, Option.some.injEq] at h
+        obtain ⟨⟨h1, _⟩, _⟩ := h
+        rw [hc] at h1
+        subst h1
+        rw [hcell] at hcp
+        cases hcp
+      | some c' =>
+        simp only [hcp, Option.map_some, Outcome.ok.injEq, Prod.mk.injEq, Option.some.injEq] at h
+        obtain ⟨⟨h1, h2⟩, h3, h4⟩ := h
+        rw [hc] at h1
+        subst h1
+        rw [hcell] at hcp
+        cases hcp
+        subst h3
+        exact ⟨rfl, h2.symm, h4.symm⟩
+
 /-- … and globally: the with-index iterators yield, call by call, the documented position
     paired with the cell of that position — for tensors over any source … -/
 theorem withIndex_kth {κ : Type} (shape : List Nat) (cell : List Nat → Option κ) (n : Nat) :
@@ -414,6 +486,90 @@ theorem withIndex_source_resumes {σ π β : Type} {next : σ → Outcome (Optio
     rw [E.start, Nat.zero_add, ← List.range_eq_range'] at this
     exact this
   · exact E.collect_from n k
+
+/-! ## std's consumers (`count`, `last`, `fold`/`sum`/`collect`/`for_each`, `nth`)
+
+  The two files override none of them, so they are std's loops over `next` (`drain`, `nthOf` in
+  Model/Iter.lean).  For every enumerating iterator: -/
+
+/-- Running an iterator that has already served `k` calls to its end (`count`, `last`, `fold`,
+    `collect`, a `for` loop) visits exactly the items `k, k+1, …, total−1` in order — each once,
+    none skipped whatever their values — and their number is `total − k`, the length reported
+    at that point (`*_len`); afterwards the iterator has made `total − k + 1` further calls. -/
+theorem consumers_drain {σ β : Type} {next : σ → Outcome (Option β × σ)} {s0 : σ} {total : Nat}
+    {item : Nat → Option β} {state : Nat → σ} (E : Enumerates next s0 total item state)
+    (k fuel : Nat) (hfuel : total - k < fuel) :
+    drain next fuel (state k) =
+        .ok ((List.range' k (total - k)).filterMap item, state (k + (total - k + 1))) ∧
+      ((List.range' k (total - k)).filterMap item).length = remaining total k := by
+  have h := drain_spec E fuel k
+  have e1 : min fuel (total - k) = total - k := by omega
+  have e2 : min fuel (total - k + 1) = total - k + 1 := by omega
+  rw [e1, e2] at h
+  refine ⟨h, ?_⟩
+  rcases Nat.lt_or_ge k total with hk | hk
+  · exact drain_length E k (total - k) (by omega)
+  · have : total - k = 0 := by omega
+    simp [this, remaining]
+
+/-- A consumer that stops early — a closure that panics at its `p`-th element, a `break`, a
+    `take` — after `c` items leaves the iterator exactly `c` calls further: the survivor goes on
+    with item `k + c` (`Enumerates.collect_from` from `state (k + c)`), nothing is lost or
+    repeated. -/
+theorem consumers_interrupted {σ β : Type} {next : σ → Outcome (Option β × σ)} {s0 : σ}
+    {total : Nat} {item : Nat → Option β} {state : Nat → σ}
+    (E : Enumerates next s0 total item state) (k c n : Nat) (hc : k + c ≤ total) :
+    drain next c (state k) = .ok ((List.range' k c).filterMap item, state (k + c)) ∧
+      ((List.range' k c).filterMap item).length = c ∧
+      collect next n (state (k + c)) = .ok ((List.range' (k + c) n).map item, state (k + c + n)) := by
+  have h := drain_spec E c k
+  have e1 : min c (total - k) = c := by omega
+  have e2 : min c (total - k + 1) = c := by omega
+  rw [e1, e2] at h
+  exact ⟨h, drain_length E k c hc, E.collect_from n (k + c)⟩
+
+/-- `nth(j)` after `k` calls returns item `k + j` (or `None` if that is past the end) and
+    leaves the iterator `min (j+1) (total−k+1)` calls further. -/
+theorem consumers_nth {σ β : Type} {next : σ → Outcome (Option β × σ)} {s0 : σ} {total : Nat}
+    {item : Nat → Option β} {state : Nat → σ} (E : Enumerates next s0 total item state)
+    (j k : Nat) :
+    nthOf next j (state k) =
+      .ok (if k + j < total then item (k + j) else none,
+        state (k + min (j + 1) (total - k + 1))) :=
+  nthOf_spec E j k
+
+/-- The reported exact length is the number of items still to come, at every point of the
+    iteration — stated with the items actually produced: after any `k` calls, `len()` of the
+    shape iterator equals the length of the list obtained by running it to the end. -/
+theorem shapeIter_len_eq_count (shape : List Nat) (hfit : prod shape ≤ usizeMax) (k : Nat) :
+    ∃ items st,
+      drain shapeNext (prod shape + 1) (ShapeIter.steps k (ShapeIter.new shape)) = .ok (items, st) ∧
+        lenOfHint (ShapeIter.steps k (ShapeIter.new shape)).sizeHint = .ok items.length := by
+  obtain ⟨h1, h2⟩ := consumers_drain (shape_enumerates shape) k (prod shape + 1) (by omega)
+  exact ⟨_, _, h1, by rw [(shapeIter_len shape hfit k).2, h2]⟩
+
+/-- The same for the two whole-matrix iterators (including empty views). -/
+theorem matrix_len_eq_count (rows columns : Nat) (hfit : rows * columns ≤ usizeMax) (k : Nat) :
+    (∃ items st,
+      drain rowMajorNext (rows * columns + 1) (rowMajorState rows columns k) = .ok (items, st) ∧
+        lenOfHint (rowMajorSizeHint (rowMajorState rows columns k)) = .ok items.length) ∧
+    (∃ items st,
+      drain colMajorNext (rows * columns + 1) (colMajorState rows columns k) = .ok (items, st) ∧
+        lenOfHint (colMajorSizeHint (colMajorState rows columns k)) = .ok items.length) := by
+  constructor
+  · obtain ⟨h1, h2⟩ := consumers_drain (rowMajor_enumerates rows columns) k (rows * columns + 1)
+      (by omega)
+    refine ⟨_, _, h1, ?_⟩
+    rw [rowMajorSizeHint_state rows columns k hfit, h2]
+    simp [lenOfHint, remaining]
+  · obtain ⟨h1, h2⟩ := consumers_drain (colMajor_enumerates rows columns) k (rows * columns + 1)
+      (by omega)
+    refine ⟨_, _, h1, ?_⟩
+    rw [colMajorSizeHint_state rows columns k hfit, h2]
+    simp [lenOfHint, remaining]
+
+example : drain shapeNext 7 (ShapeIter.steps 2 (ShapeIter.new [2, 3])) =
+    .ok ([[0, 2], [1, 0], [1, 1], [1, 2]], ShapeIter.steps 7 (ShapeIter.new [2, 3])) := by rfl
 
 /-! ## Mutable iterators never hand out the same element twice; owning iterators move every
     value out once
